@@ -1,8 +1,9 @@
 import FormulaicVerif.Spec.ContrastsCache
 import FormulaicVerif.Proofs.C04Cat
+import FormulaicVerif.Proofs.C11Ext
 /-! # C11 helper lemmas, part 4: the materializer's encoded-factor cache is transparent -/
 namespace FormulaicVerif.Proofs.C11
-open FormulaicVerif.Model.Contrasts FormulaicVerif.Model.ContrastsCache FormulaicVerif.Spec.ContrastsCache
+open FormulaicVerif.Model.Contrasts FormulaicVerif.Model.ContrastsExt FormulaicVerif.Model.ContrastsCache FormulaicVerif.Spec.ContrastsCache
 open FormulaicVerif.Proofs.C04 (encode_some encode_none)
 
 theorem apply_reduced_spans {c : Contrast} {d : List (List Rat)} {cs : List Label} {s : Bool} {e : Encoded}
@@ -46,21 +47,75 @@ theorem encode_some_spec {data : List (Option Label)} {c : Contrast} {ls : List 
         intro hr; subst hr
         exact apply_reduced_spans ha
 
+theorem liftB_ok {α : Type} {x : Except Err α} {a : α} (h : liftB x = .ok a) : x = .ok a := by
+  cases x with
+  | error e => simp [liftB] at h
+  | ok v => simp only [liftB, Except.ok.injEq] at h; rw [h]
+
+theorem xApply_custom_reduced_spans {k : Custom} {d : List (List Rat)} {cs : List Label} {r s : Bool} {e : Encoded}
+    (ha : xApply (.custom k) d cs r s = .ok e) : e.spansIntercept = false := by
+  unfold xApply at ha
+  split_ifs at ha
+  · simp only [Except.ok.injEq] at ha; subst ha; rfl
+  · simp only [bind, Except.bind] at ha
+    cases hv : customApplyInner k d cs s with
+    | error x => simp [hv] at ha
+    | ok v =>
+      simp only [hv] at ha
+      cases hn : customColumnNames k with
+      | error x => simp [hn] at ha
+      | ok names =>
+        simp only [hn, pure, Except.pure, Except.ok.injEq] at ha
+        subst ha; rfl
+
+theorem xEncodeWith_some_spec {x : XContrast} {data : List (Option Label)} {ls : List Label} {r : Bool}
+    {out : String} {e : Encoded} {cats : List Label}
+    (h : xEncodeWith x data (some ls) r out = .ok (e, cats)) :
+    cats = ls ∧ (r = true → e.spansIntercept = false) := by
+  cases x with
+  | builtin c => exact encode_some_spec (liftB_ok h)
+  | custom k =>
+    obtain ⟨ha, h2, _, _⟩ := xEncodeWith_custom h
+    exact ⟨(h2 ls rfl).1, fun _ => xApply_custom_reduced_spans ha⟩
+
+theorem xEncodeWith_none (x : XContrast) (data : List (Option Label)) (r : Bool) (out : String) :
+    xEncodeWith x data none r out = xEncodeWith x data (some (inferLevels data)) r out := by
+  cases x with
+  | builtin c => simp only [xEncodeWith]; rw [encode_none]
+  | custom k =>
+    simp only [xEncodeWith, FormulaicVerif.Proofs.C04.hasDup_inferLevels, Bool.false_eq_true, if_false]
+
+theorem xEncode_none (arg : ContrastArg) (data : List (Option Label)) (r : Bool) (out : String) :
+    xEncodeContrasts data arg none r out = xEncodeContrasts data arg (some (inferLevels data)) r out := by
+  unfold xEncodeContrasts
+  cases resolveArg arg with
+  | error e => rfl
+  | ok x => exact xEncodeWith_none x data r out
+
+theorem xEncode_some_spec {arg : ContrastArg} {data : List (Option Label)} {ls : List Label} {r : Bool}
+    {out : String} {e : Encoded} {cats : List Label}
+    (h : xEncodeContrasts data arg (some ls) r out = .ok (e, cats)) :
+    cats = ls ∧ (r = true → e.spansIntercept = false) := by
+  unfold xEncodeContrasts at h
+  cases hx : resolveArg arg with
+  | error e => simp [hx] at h
+  | ok x => simp only [hx] at h; exact xEncodeWith_some_spec h
+
 /-- what a successful encode returns: the categories are the explicit levels or the inferred ones,
 and a reduced-rank encoding never claims to span the intercept -/
 theorem encode_spec {f : Factor} {r : Bool} {e : Encoded} {cats : List Label}
-    (h : encodeContrasts f.data f.contrast f.levels r f.output = .ok (e, cats)) :
+    (h : xEncodeContrasts f.data f.contrast f.levels r f.output = .ok (e, cats)) :
     cats = categories f ∧ (r = true → e.spansIntercept = false) := by
   unfold categories
   cases hl : f.levels with
-  | some ls => rw [hl] at h; exact encode_some_spec h
-  | none => rw [hl, encode_none] at h; exact encode_some_spec h
+  | some ls => rw [hl] at h; exact xEncode_some_spec h
+  | none => rw [hl, xEncode_none] at h; exact xEncode_some_spec h
 
 /-- the recorded state does not change what the encoder does -/
 theorem encode_with_state (f : Factor) (spec : Option (List Label)) (hs : ∀ cs, spec = some cs → cs = categories f)
     (r : Bool) :
-    encodeContrasts f.data f.contrast (levelsOrState f.levels spec) r f.output
-      = encodeContrasts f.data f.contrast f.levels r f.output := by
+    xEncodeContrasts f.data f.contrast (levelsOrState f.levels spec) r f.output
+      = xEncodeContrasts f.data f.contrast f.levels r f.output := by
   unfold levelsOrState
   cases hl : f.levels with
   | some ls => rfl
@@ -72,10 +127,10 @@ theorem encode_with_state (f : Factor) (spec : Option (List Label)) (hs : ∀ cs
       simp only [categories, hl] at this
       subst this
       simp only []
-      rw [← encode_none]
+      rw [← xEncode_none]
 
 theorem finish_noop {f : Factor} {r : Bool} {e : Encoded} {cats : List Label}
-    (h : encodeContrasts f.data f.contrast f.levels r f.output = .ok (e, cats)) : finish e r = .ok e := by
+    (h : xEncodeContrasts f.data f.contrast f.levels r f.output = .ok (e, cats)) : finish e r = .ok e := by
   unfold finish
   cases r with
   | false => simp
@@ -86,7 +141,7 @@ entry is what a stand-alone encode returns, and the spec's recorded categories a
 structure Inv (f : Factor) (s : State) : Prop where
   byExpr : s.cache.byExpr = none
   rank : ∀ r e cats, s.cache.rank r = some (e, cats) →
-    encodeContrasts f.data f.contrast f.levels r f.output = .ok (e, cats)
+    xEncodeContrasts f.data f.contrast f.levels r f.output = .ok (e, cats)
   spec : ∀ cs, s.spec = some cs → cs = categories f
 
 theorem inv_init (f : Factor) : Inv f State.init :=
@@ -122,7 +177,7 @@ theorem step_spec (f : Factor) (hd : f.evalDrop = none) (s : State) (hs : Inv f 
     | some c' => simpa using hspec c' hsp
   | none =>
     simp only [encode_with_state f _ hspec]
-    cases henc : encodeContrasts f.data f.contrast f.levels q.reduced f.output with
+    cases henc : xEncodeContrasts f.data f.contrast f.levels q.reduced f.output with
     | error x =>
       refine ⟨(by intro err h; simp only [Except.error.injEq] at h; subst h; rfl), (by intro out h; cases h)⟩
     | ok p =>
@@ -199,9 +254,9 @@ theorem each_ok (f : Factor) : ∀ (qs : List Request) (outs : List Encoded), ea
         | succ k => simpa using hk k (by simpa using hk1) (by simpa using hk2)
 
 theorem direct_ok {f : Factor} {q : Request} {e : Encoded} (h : direct f q = .ok e) :
-    encodeContrasts f.data f.contrast f.levels q.reduced f.output = .ok (e, categories f) := by
+    xEncodeContrasts f.data f.contrast f.levels q.reduced f.output = .ok (e, categories f) := by
   unfold direct at h
-  cases henc : encodeContrasts f.data f.contrast f.levels q.reduced f.output with
+  cases henc : xEncodeContrasts f.data f.contrast f.levels q.reduced f.output with
   | error x => simp [henc] at h
   | ok p =>
     obtain ⟨e', cats⟩ := p
